@@ -238,6 +238,24 @@ def projectOracles (p : Project) (cfg : Gn.Config) (a : Analysis) (implFiles : J
         | some (_, ms) => sameMulti (ms.map (·.1)) want
         | none => false
       [("c04_declared_keys", ok)]
+  -- C06 at file level: every emitted declaration of a project type carries exactly the wire names of its fields / variants
+  -- (one each, none merged or dropped on the way through the templates)
+  let c06 : List (String × Bool) :=
+    match fileText "types.ts" with
+    | none => []
+    | some t =>
+      let d := ZF.declsOf t
+      let ok := a.structs.all fun st =>
+        let want := st.fields.map (Gn.fieldKey cfg st)
+        if st.isEnum then
+          match d.enums.find? (·.1 = st.name) with
+          | some (_, lits) => sameMulti lits want
+          | none => true
+        else
+          match d.objs.find? (·.1 = st.name) with
+          | some (_, ms) => sameMulti (ms.map (·.1)) want
+          | none => true
+      [("c06_wire_names", ok)]
   -- keys: every emitted property key / parameter key must be an identifier (they are never quoted)
   let keys : List Str := (a.structs.flatMap fun st => if st.isEnum then [] else st.fields.map (Gn.fieldKey cfg st)) ++
     (a.commands.flatMap fun c => c.params.map (fun prm => Gn.paramKey cfg c prm.name prm.serdeRename) ++ c.channels.map (fun ch => Gn.paramKey cfg c ch.param none))
@@ -268,7 +286,7 @@ def projectOracles (p : Project) (cfg : Gn.Config) (a : Analysis) (implFiles : J
     [("c18_mapped_name_absent", mapped.all fun m => !allIds.contains m.1 && !allIds.contains (m.1 ++ cl!"Schema"))]
   -- the analysis with verbose output switched on finds the same commands, types and events
   let c07v : List (String × Bool) := [("c07_verbose_same_analysis", verboseSame)]
-  { results := c03 ++ c12 ++ c07 ++ c07v ++ c09 ++ c02 ++ c04 ++ c04b ++ c01 ++ c10 ++ c18, classes := classes }
+  { results := c03 ++ c12 ++ c07 ++ c07v ++ c09 ++ c02 ++ c04 ++ c04b ++ c06 ++ c01 ++ c10 ++ c18, classes := classes }
 where
   imp_commands_empty (a : Analysis) : Bool := a.commands.isEmpty
 
